@@ -18,46 +18,37 @@ struct WorkExceeded {
     size_t scans;
 };
 
-// Instrumented graph type handed to the (template) searches: counts neighbourhood scans.
+// Instrumented graph types handed to the (template) searches: a copy of the graph whose getOutNeighbours counts the
+// neighbourhood scans.  They derive from the graph class, so whatever part of its public interface a search uses is there.
 template <class L>
-struct CountingDirected {
-    const LabeledDirectedGraph<L> *g;
+struct CountingDirected : LabeledDirectedGraph<L> {
     mutable size_t scans = 0;
     size_t cap = (size_t)-1;
-    size_t getSize() const { return g->getSize(); }
+    explicit CountingDirected(const LabeledDirectedGraph<L> &g) : LabeledDirectedGraph<L>(g) {}
     const Successors &getOutNeighbours(VertexIndex v) const {
         if (++scans > cap)
             throw WorkExceeded{scans};
-        return g->getOutNeighbours(v);
+        return LabeledDirectedGraph<L>::getOutNeighbours(v);
     }
-    VertexIterator begin() const { return g->begin(); }
-    VertexIterator end() const { return g->end(); }
 };
 template <class L>
-struct CountingUndirected {
-    const LabeledUndirectedGraph<L> *g;
+struct CountingUndirected : LabeledUndirectedGraph<L> {
     mutable size_t scans = 0;
     size_t cap = (size_t)-1;
-    size_t getSize() const { return g->getSize(); }
+    explicit CountingUndirected(const LabeledUndirectedGraph<L> &g) : LabeledUndirectedGraph<L>(g) {}
     const Successors &getOutNeighbours(VertexIndex v) const {
         if (++scans > cap)
             throw WorkExceeded{scans};
-        return g->getOutNeighbours(v);
+        return LabeledUndirectedGraph<L>::getOutNeighbours(v);
     }
-    VertexIterator begin() const { return g->begin(); }
-    VertexIterator end() const { return g->end(); }
 };
 template <class L>
 CountingDirected<L> counting(const LabeledDirectedGraph<L> &g) {
-    CountingDirected<L> c;
-    c.g = &g;
-    return c;
+    return CountingDirected<L>(g);
 }
 template <class L>
 CountingUndirected<L> counting(const LabeledUndirectedGraph<L> &g) {
-    CountingUndirected<L> c;
-    c.g = &g;
-    return c;
+    return CountingUndirected<L>(g);
 }
 
 const size_t UNREACH = (size_t)-1;
